@@ -463,12 +463,19 @@ def gen_release_seq(rng):
     return lines, {'maxdepth': 1, 'pre': True, 'op_in_ng': False}
 
 
-def op_flag_case(rng, op, hot=None, force=None):
+def op_flag_case(rng, op, hot=None, force=None, dts=None, ng=None):
     """the flag rule for EVERY op of the catalogue, arguments from the per-op generators (boundary values included): operands
-    with random requires_grad flags, the op inside or outside no_grad; flags of all results are compared with the model"""
+    with random requires_grad flags, the op inside or outside no_grad; flags of all results are compared with the model.
+    dts = (dtype of the first float operand, dtype of the other float operands): operands of DIFFERENT float dtypes (a float64 batch
+    against float32 parameters and the other way round); ng: the op inside no_grad or not (None: drawn)"""
     import gen_ops
     gen = gen_ops.gen_basic if op in gen_ops.OPS_BASIC else gen_ops.gen_nn
     leaves, args = gen(rng, op, False)
+    if dts is not None:
+        fl = [i for i, lf in enumerate(leaves) if (lf[3] if len(lf) > 3 else 'f64') in ('f64', 'f32')]
+        if len(fl) < 2: raise IndexError('one float operand')
+        q = lambda v: round(v * 64) / 64                  # (values exact in binary32)
+        leaves = [(lf[0], [q(v) for v in lf[1]], lf[2], dts[0] if i == fl[0] else dts[1]) if i in fl else lf for i, lf in enumerate(leaves)]
     if op == 'pow' and (force in ('pow0', 'pow-0') or rng.chance(.5)):                 # boundary exponent: x ** 0 is still an op on x
         args = [common.fbits(-0.0 if force == 'pow-0' else 0.0 if force == 'pow0' else rng.pick([0.0, -0.0]))]
         leaves = [(leaves[0][0], [abs(v) + 0.5 for v in leaves[0][1]]) + tuple(leaves[0][2:])]
@@ -485,7 +492,7 @@ def op_flag_case(rng, op, hot=None, force=None):
     c = {'op': op, 'leaves': leaves, 'args': args}
     prog = gen_ops.program(c, rng)
     nl = len(leaves)
-    ng = rng.chance(.3) and not zero_bias and not force
+    ng = (rng.chance(.3) and not zero_bias and not force) if ng is None else ng
     lines = prog[:nl] + (['t ctx new ng', 't ctx enter 0'] if ng else []) + prog[nl:] + (['t ctx exit 0'] if ng else [])
     io = tprog.run_program(lines)
     res = io[nl + (2 if ng else 0)]
@@ -495,7 +502,12 @@ def op_flag_case(rng, op, hot=None, force=None):
         lines.append(f't op mul {nl},{nl}'); lines.append(f't flags {nl + nout}')      # the flag travels on
     st = {'maxdepth': 1, 'pre': False, 'op_in_ng': ng}
     if hot is not None and nl > 1: st['onehot'] = f'{op}: only operand {hot} of {nl} tracked'
+    if dts is not None: st['mixed'] = f"{op}: first operand {dts[0]}, the others {dts[1]}; tracked: {('operand ' + str(hot)) if hot is not None else 'drawn'}"
     return lines, st
+
+
+MIXED_OPS = ['linear', 'conv1d', 'conv2d', 'batch_norm', 'mse_loss', 'binary_cross_entropy', 'binary_cross_entropy_with_logits', 'add', 'mul', 'matmul', 'addmm',
+             'concat', 'stack']
 
 
 STATES = ['fresh', 'after backward', 'intermediate marked with retain_grad, after backward', 'after backward under retain_grads', 'after two backward calls',
@@ -824,6 +836,19 @@ def cases(rng, tier):
                 except Exception:
                     continue
                 out.append({'lines': lines, 'stats': stats, 'desc': ' ; '.join(l for l in lines if not l.startswith(('t flags', 't modes', 't grad')))[:900]})
+    # operands of DIFFERENT float dtypes (float64 batch against float32 parameters and vice versa) for every op with several float
+    # operands: exactly one tracked operand in every position, outside and inside no_grad; plus drawn flags
+    for op in MIXED_OPS:
+        for dts in (('f64', 'f32'), ('f32', 'f64')):
+            for hot in (0, 1, 2, None):
+                for ng in (False, True):
+                    for _ in range(1 if tier == 'quick' else 6):
+                        if ng and tier == 'quick' and hot is not None and rng.chance(.5): continue
+                        try:
+                            lines, stats = op_flag_case(rng, op, hot, dts=dts, ng=ng)
+                        except Exception:
+                            continue
+                        out.append({'lines': lines, 'stats': stats, 'desc': 'mixed float dtypes: ' + ' ; '.join(l for l in lines if not l.startswith(('t flags', 't modes', 't grad')))[:900]})
     for op in ('concat', 'stack'):
         for n in range(1, 6):
             masks = [[int(i == k) for i in range(n)] for k in range(n)] + [[0] * n, [1] * n]
@@ -995,6 +1020,9 @@ def distribution(cases):
             d[k] = d.get(k, 0) + 1
         if st.get('onehot'):
             k = f"exactly one tracked operand: {st['onehot']}"
+            d[k] = d.get(k, 0) + 1
+        if st.get('mixed'):       # operands of different float dtypes
+            k = f"mixed float dtypes: {st['mixed']}{' (inside no_grad)' if st['op_in_ng'] else ''}"
             d[k] = d.get(k, 0) + 1
         if st.get('mode'):        # nn op under one mode / option combination
             k = f"nn mode: {st['mode']}{' (inside no_grad)' if st['op_in_ng'] else ''}"
